@@ -31,7 +31,8 @@ sys.path.insert(0, os.path.join(VERIF, "harness", "C20"))
 import gen as c20gen  # noqa: E402
 
 THEOREMS = ["JanetModel.Props.C20." + t for t in (
-    "done_expr_match", "counter_sites_match", "poll_phase_match", "root_sites_match",
+    "done_expr_match", "counter_sites_match", "poll_phase_match", "root_sites_match", "stream_close_match",
+    "orphan_le_lis", "streamClose_releases_all", "close_with_two_listeners_orphans_writer", "orphan_listener_never_done",
     "step_inv", "run_inv", "loop1_inv", "janetLoop_inv", "janetLoop_exit_nothing_outstanding", "listener_count_inv", "no_premature_exit", "no_hang_when_idle", "loopDone_iff_idle",
     "null_event_keeps_loop_alive", "nullStuck_zero", "loopDone_iff_idle_fixed", "collected_suspended_task_keeps_count",
     "dropStale_all_stale", "dropStale_head_live", "dropStale_sublist", "stale_timers_cannot_keep_loop_alive", "pollPrelude_counters",
@@ -39,7 +40,7 @@ THEOREMS = ["JanetModel.Props.C20." + t for t in (
 
 ENV = dict(os.environ, ASAN_OPTIONS="detect_leaks=0:abort_on_error=0", UBSAN_OPTIONS="print_stacktrace=1")
 SCRATCH = "/var/tmp/janet-verif-c20"
-LEAK_METRICS = ["fds", "children", "zombies", "roots", "blocks", "lc", "tq", "rq", "fibers"]   # "threads" is reported, not judged
+LEAK_METRICS = ["fds", "children", "zombies", "roots", "blocks", "lc", "tq", "rq", "fibers", "shared"]   # "threads" is reported, not judged
 
 
 def _kv(fields):
@@ -88,7 +89,8 @@ def judge_cycle(name, n, rc, out, err):
             ms[f[1]] = _kv(f[2:])
     v = {"name": name, "N": n, "measures": ms, "leaks": {}, "fail": None}
     if rc != 0 or "RETURNED" not in out or len(ms) < 3:
-        why = ("hang: " + [l for l in out.splitlines() if l.startswith(("IDLE-NOT-DONE", "STALE-TIMERS-BLOCK"))][0]) if ("IDLE-NOT-DONE" in out or "STALE-TIMERS-BLOCK" in out) else (
+        why = ("hang: " + [l for l in out.splitlines() if l.startswith(("IDLE-NOT-DONE", "STALE-TIMERS-BLOCK", "NO-WAKE-SOURCE"))][0]) if (
+            "IDLE-NOT-DONE" in out or "STALE-TIMERS-BLOCK" in out or "NO-WAKE-SOURCE" in out) else (
             "watchdog: event loop did not return" if "WATCHDOG" in out else ("timeout" if rc is None else "rc=%s" % rc))
         v["fail"] = "%s; stdout tail: %s; stderr tail: %s" % (why, out[-400:], err[-1200:])
         return v
@@ -151,7 +153,11 @@ def judge_mix(expect, chosen, rc, out, err):
             probs.append(("roots-unbalanced-at-exit",
                           "gc root count %s at loop return, %s before the program started" % (returned.get("roots"), steps[0][2].get("roots"))))
     else:
-        if "IDLE-NOT-DONE" in out:
+        if "NO-WAKE-SOURCE" in out:
+            probs.append(("stuck-no-wake-source:" + ",".join(sorted(set(chosen[k] for k in missing))),
+                          "task(s) %s (%s) can never complete: the loop blocks with nothing that could wake it (%s)"
+                          % (missing, [chosen[k] for k in missing], [l for l in out.splitlines() if l.startswith("NO-WAKE-SOURCE")][:1])))
+        elif "IDLE-NOT-DONE" in out:
             probs.append(("hang-after-all-work" + ("" if missing else ":all-completions-logged"),
                           "nothing is outstanding, runnable or timed (independent ground truth) but janet_loop_done() is false - the loop blocks for ever: %s; "
                           "tasks not completed: %s" % ([l for l in out.splitlines() if l.startswith("IDLE-NOT-DONE")][:1], missing)))
@@ -238,6 +244,8 @@ def model_lines(out):
                 lines.append("unknown-unroot " + f[2])
         elif k in ("tadd", "tpop"):
             lines.append("%s %s %s" % (k, f[2][1:], "d" if f[3] == "deadline" else "t"))
+        elif k == "sclose":
+            lines.append("sclose " + f[2])
         elif k in ("step", "poll", "run"):
             pass
         else:
@@ -257,7 +265,7 @@ def compare_model(lines, snaps, mout):
     for idx, n, tag, s in snaps:
         m = _kv(mout[idx].split())
         exp = {"lc": s["lc"], "tq": s["tq"], "rq": s["rq"], "roots": s["roots"] - roots0, "susp": s["susp"], "lis": s["lis"],
-               "pipecalls": s["inpipe"] + s["calls"], "done": s["done"]}
+               "pipecalls": s["inpipe"] + s["calls"], "done": s["done"], "orphan": s.get("lisclosed", 0)}
         bad = {k: (m.get(k), v) for k, v in exp.items() if m.get(k) != v}
         if bad:
             diffs.append("step %d (%s): (model, implementation) differ in %s" % (n, tag, bad))
@@ -386,6 +394,9 @@ def run(ctx):
     if gen_facts and not gen_facts["tchan_unroot"]["cb"] and not any(v["name"].startswith("thread-chan") and v["leaks"] for v in cyc):
         broken.append("Gen.Loop.tchanUnrootCb = false (theorem tchan_root_never_released applies) but no thread-chan cycle leaked roots")
 
+    if gen_facts and not gen_facts["close_notifies_both"] and not any(v["name"].startswith("duplex-") and v["fail"] for v in cyc):
+        broken.append("Gen.Loop.closeNotifiesBoth = false (theorem close_with_two_listeners_orphans_writer applies) but no duplex-* cycle hung")
+
     if broken and not ctx.nviol:
         # something in A-D no longer checks and the standard sweep found no failing input: search harder before giving up
         extra = []
@@ -416,7 +427,8 @@ def run(ctx):
         "cycle_leaks": {v["name"]: sorted(v["leaks"]) or v["fail"] for v in leaking},
         "mixes": len(mixes), "mix_steps": total_steps, "mix_task_kinds": kinds_hit,
         "correspondence_events": corr_events, "correspondence_steps_compared": corr_snaps, "correspondence_mixes_differing": len(corr_diffs),
-        "generated": {"tchan_unroot": gen_facts["tchan_unroot"], "counter_sites": len(gen_facts["counter"]), "root_sites": len(gen_facts["roots"])} if gen_facts else None,
+        "generated": {"tchan_unroot": gen_facts["tchan_unroot"], "close_notifies_both": gen_facts["close_notifies_both"],
+                      "selfpipe_dec_needs_cb": gen_facts["selfpipe_dec_needs_cb"], "counter_sites": len(gen_facts["counter"]), "root_sites": len(gen_facts["roots"])} if gen_facts else None,
     }
     return ctx.finish("proof", cov, assumptions=[
         "descriptor / child / zombie counts read from /proc; heap blocks and roots from janet_vm after two forced collections",
